@@ -419,12 +419,19 @@ func superMain(t *testing.T) int {
 	relax := []string{}
 	violations := []string{}
 	nKnown := 0
+	// open findings first (they decide the relaxations), then the regression
+	// replays of fixed findings, which run under those relaxations
+	sort.SliceStable(finds, func(i, j int) bool { return finds[i].Status == "open" && finds[j].Status != "open" })
 	for _, f := range finds {
 		if !f.concerns(prop) || f.Replay == "" {
 			continue
 		}
 		rp := filepath.Join(verifRoot, f.Replay)
-		res, err := runReplay(rp, "")
+		rl := ""
+		if f.Status != "open" {
+			rl = strings.Join(relax, ",")
+		}
+		res, err := runReplay(rp, rl)
 		if err != nil {
 			fmt.Println("replay of finding", f.ID, "failed to run:", err)
 			return 2
